@@ -52,7 +52,8 @@ http://www.hyperelliptic.org/efd. Там же можно найти соглаш
 	(zmIsIn(ecX(a), (ec)->f) && zmIsIn(ecY(a, (ec)->f->n), (ec)->f))
 
 #define ecpSeemsOn3(a, ec)\
-	(ecpSeemsOnA(a, ec) && zmIsIn(ecZ(a, (ec)->f->n), (ec)->f))
+	(zmIsIn(ecZ(a, (ec)->f->n), (ec)->f) &&\
+		(wwIsZero(ecZ(a, (ec)->f->n), (ec)->f->n) || ecpSeemsOnA(a, ec)))
 
 /*
 *******************************************************************************
